@@ -175,13 +175,23 @@ def State.dtor (st : State) (dst : Loc) : State :=
 
 def Item.loc (it : Item) (f : Nat) : Loc := .heap it.b it.i f
 
-/-- destroy the objects of one item: reverse construction order -/
-def State.dtorItem (st : State) (k : Kind) (it : Item) : State :=
-  k.fields.reverse.foldl (fun s f => s.dtor (it.loc f)) st
-
-def State.dtorItems (st : State) (k : Kind) : List Item → State
+/-- destructor calls in list order -/
+def State.dtorLocs (st : State) : List Loc → State
   | [] => st
-  | it :: rest => (st.dtorItem k it).dtorItems k rest
+  | l :: rest => (st.dtor l).dtorLocs rest
+
+/-- placement-new calls in list order: (destination, source location, payload) -/
+def State.ctorList (st : State) : List (Loc × Option Loc × Option Nat) → State
+  | [] => st
+  | (d, src, p) :: rest => (st.ctor d src p).ctorList rest
+
+/-- the objects of one item in destruction order (reverse construction order) -/
+def Item.dtorOrder (k : Kind) (it : Item) : List Loc := k.fields.reverse.map it.loc
+
+def State.dtorItem (st : State) (k : Kind) (it : Item) : State := st.dtorLocs (it.dtorOrder k)
+
+def State.dtorItems (st : State) (k : Kind) (items : List Item) : State :=
+  st.dtorLocs (items.flatMap (Item.dtorOrder k))
 
 def State.freeBlocks (st : State) : List Nat → State
   | [] => st
@@ -215,11 +225,6 @@ def takeSlot (st : State) (k : Kind) (n : Node) : State × Item × List Item × 
     if k.hashOrder then (st, ⟨b, 0⟩, [⟨b, 3⟩, ⟨b, 2⟩, ⟨b, 1⟩], b :: n.blocks)
     else (st, ⟨b, 3⟩, [⟨b, 2⟩, ⟨b, 1⟩, ⟨b, 0⟩], b :: n.blocks)
 
-/-- construct the objects of a new item: `srcs` = (field, resolved source location, payload) in construction order -/
-def State.ctorFields (st : State) (it : Item) : List (Nat × Option Loc × Option Nat) → State
-  | [] => st
-  | (f, src, p) :: rest => (st.ctor (it.loc f) src p).ctorFields it rest
-
 def insertAt {α : Type} (l : List α) (pos : Nat) (x : α) : List α := l.take pos ++ x :: l.drop pos
 
 /-- link a new item at position pos: allocate the hash table if needed, take a slot, construct -/
@@ -232,7 +237,7 @@ def insertNew (st : State) (c : Var) (pos : Nat) (srcs : List (Nat × Option Loc
       | none => (st.alloc 0, some st.next)
     else (st, n.data)
   let (st, it, free, blocks) := takeSlot st c.k n
-  let st := st.ctorFields it srcs
+  let st := st.ctorList (srcs.map fun (f, src, p) => (it.loc f, src, p))
   st.setNode c { n with items := insertAt n.items pos it, free := free, blocks := blocks, data := data }
 
 def removeAt (st : State) (c : Var) (j : Nat) (it : Item) : State :=
@@ -258,9 +263,7 @@ def reserveCopy (st : State) (ob nb : Nat) : List Nat → State
     let st := st.ctor (.heap nb i 1) (some (.heap ob i 1)) (st.mem (.heap ob i 1))
     reserveCopy (st.dtor (.heap ob i 1)) ob nb rest
 
-def dtorRange (st : State) (s : Nat) : List Nat → State
-  | [] => st
-  | i :: rest => dtorRange (st.dtor (.heap s i 1)) s rest
+def dtorRange (st : State) (s : Nat) (l : List Nat) : State := st.dtorLocs (l.map fun i => .heap s i 1)
 
 def shiftDown (st : State) (s : Nat) : List Nat → State
   | [] => st
@@ -268,9 +271,19 @@ def shiftDown (st : State) (s : Nat) : List Nat → State
 
 def range' (lo hi : Nat) : List Nat := (List.range (hi - lo)).map (· + lo)
 
+def Var.valid (c : Var) : Bool := c.v ≤ 1 && c.k != .A
+
+/-- the step names only the sixteen variables of the harness -/
+def Micro.valid : Micro → Bool
+  | .put c _ _ _ => c.valid | .assignVal c _ _ => c.valid | .remove c _ => c.valid | .removeKey c _ => c.valid
+  | .removeVal c _ => c.valid | .clear c => c.valid | .destroy c => c.valid | .create c => c.valid
+  | .swap c d => c.valid && d.valid
+  | .aReserve a _ => a ≤ 1 | .aPush a _ => a ≤ 1 | .aTruncate a _ => a ≤ 1 | .aAssign a _ _ => a ≤ 1
+  | .aRemove a _ => a ≤ 1 | .aDestroy a => a ≤ 1 | .aCreate a _ => a ≤ 1 | .aSwap a b => a ≤ 1 && b ≤ 1
+
 /-- execution of one micro step; `none` = the step is not executable in this state
     (index outside the container: undefined behaviour in C++, never produced by `compile`) -/
-def exec (st : State) : Micro → Option State
+def exec' (st : State) : Micro → Option State
   | .put c pos k v => do
     let n := st.nodes c
     if !n.alive then none
@@ -337,11 +350,11 @@ def exec (st : State) : Micro → Option State
     let st := match n.data with | some d => st.freeBlk d | none => st
     let st := st.dtorItems c.k n.items
     let st := st.freeBlocks n.blocks
-    let st := c.k.sentFields.reverse.foldl (fun s f => s.dtor (.sent c f)) st
+    let st := st.dtorLocs (c.k.sentFields.reverse.map fun f => .sent c f)
     some (st.setNode c {})
   | .create c =>
     if (st.nodes c).alive then none else
-    let st := c.k.sentFields.foldl (fun s f => s.ctor (.sent c f) none (some 0)) st
+    let st := st.ctorList (c.k.sentFields.map fun f => (.sent c f, none, some 0))
     some (st.setNode c { alive := true })
   | .swap c d =>
     let n := st.nodes c
@@ -402,6 +415,8 @@ def exec (st : State) : Micro → Option State
     let y := st.arrs b
     if !x.alive || !y.alive then none else
     some ((st.setArr a y).setArr b x)
+
+def exec (st : State) (m : Micro) : Option State := if m.valid then exec' st m else none
 
 def execAll (st : State) : List Micro → Option State
   | [] => some st
